@@ -13,6 +13,8 @@
                                                                    wrapper = (mac <visible name of an wif/wifx/w0/erw macro>)): first token W:<kinds>, then
                                                                    O:<lib>:<m> | U | L (a template's local): Env.env_cell in the model environments
                                                                    built by env_import; "ERR NOTMACRO" when a wrapper name is not such a macro
+     exports (imp ...) (form ...)                               -> ExportAll.env_exports of the top frame ExportAll.eval_body leaves: the names an
+                                                                   (export-all) library exports once loaded, in env-exports order ("_" when none)
    Own text<->Coq string conversions: Model shadows OCaml's [string]. *)
 type ostring = string
 let olen = String.length
@@ -201,6 +203,16 @@ let handle (line : ostring) : ostring =
       let st = table_state w in
       oconcat "," (List.map show_outcome os) ^ " | " ^
       oconcat "," (List.rev_map (fun l -> string_of_int (int_of_nat l)) st.evals)
+  | "exports", [imps; L forms] ->
+      (* ExportAll.env_exports [] (ExportAll.eval_body imps forms): the export list of a loaded (export-all) library, in the order
+         (env-exports (module-env mod)) lists it; forms: (define n (ref ...)) | (expr (ref ...)) *)
+      let fm = function
+        | L [A "define"; n; refs] -> FDefine (atom n, atoms refs)
+        | L [A "expr"; refs] -> FExpr (atoms refs)
+        | _ -> failwith "form" in
+      (match env_exports [] (eval_body (atoms imps) (List.map fm forms)) with
+       | [] -> "_"
+       | l -> oconcat " " (List.map sym l))
   | _ -> "ERR bad request"
 
 let () =
